@@ -395,7 +395,7 @@ fn search_thread<S: SubCheck>(run: &Run, check: &S, cases: u32, k: usize, w: &mu
             cases: remaining,
             failure_persistence: None,
             rng_seed: RngSeed::Fixed(seed),
-            max_shrink_iters: 4096,
+            max_shrink_iters: 300,
             max_global_rejects: 65536,
             max_local_rejects: 65536,
             ..Config::default()
